@@ -16,6 +16,9 @@ type Env struct {
 	sub    map[ssa.Value]*Val
 	header *ssa.BasicBlock
 	noLocals bool
+	qOff     map[string]map[string]bool // quantified variable term -> slice offsets it is added to
+	qShift   map[string]string          // quantified variable -> offset it has been shifted by
+	qPats    *[]string
 	bound  map[string]string
 	boundStr map[string]bool
 }
@@ -129,7 +132,20 @@ func (v *Env) eval(x Expr) *Val {
 		}
 		switch t := b.typ.Underlying().(type) {
 		case *types.Slice:
-			ref := app("elem", b.c[0], app("+", b.c[1], i.c[0]))
+			idx := app("+", b.c[1], i.c[0])
+			if v.qOff != nil {
+				// index by a quantified variable: remember the slice offset (for re-indexing) / use the re-indexed form
+				for q, off := range v.qShift {
+					if i.c[0] == app("-", q, off) && b.c[1] == off {
+						idx = q
+						*v.qPats = append(*v.qPats, app("elem", b.c[0], q))
+					}
+				}
+				if _, isQ := v.qOff[i.c[0]]; isQ {
+					v.qOff[i.c[0]][b.c[1]] = true
+				}
+			}
+			ref := app("elem", b.c[0], idx)
 			return e.loadAt(v.st, ref, t.Elem())
 		case *types.Basic:
 			return &Val{typ: types.Typ[types.Uint8], c: []string{app("sat", b.c[0], i.c[0])}}
@@ -144,6 +160,8 @@ func (v *Env) eval(x Expr) *Val {
 				return &Val{typ: tInt, c: []string{a.c[2]}}
 			case *types.Basic:
 				return &Val{typ: tInt, c: []string{app("slen", a.c[0])}}
+			case *types.Map:
+				return e.mapLen(v.st, a.typ, a)
 			}
 			panic("contract: len of unsupported type")
 		case "cap":
@@ -172,12 +190,22 @@ func (v *Env) eval(x Expr) *Val {
 		case "IsDirOf":
 			return v.e.ufTerm("iface.io/fs.IsDir", []*Val{v.eval(x.Args[0])}, tBool)
 		case "Join":
-			a, b := v.eval(x.Args[0]), v.eval(x.Args[1])
-			// variadic: elem slice is opaque in the probe; compare through the same UF only when used symmetrically
-			return v.e.ufTerm("path/filepath.Join2", []*Val{a, b}, types.Typ[types.String])
+			var as []*Val
+			for _, a := range x.Args {
+				as = append(as, v.eval(a))
+			}
+			return v.e.ufTerm(fmt.Sprintf("path/filepath.Join%d", len(as)), as, types.Typ[types.String])
+		case "Dir":
+			return v.e.ufTerm("path/filepath.Dir", []*Val{v.eval(x.Args[0])}, types.Typ[types.String])
 		case "ite":
 			c, a, b := v.formula(x.Args[0]), v.eval(x.Args[1]), v.eval(x.Args[2])
 			return &Val{typ: a.typ, c: []string{ite(c, a.c[0], b.c[0])}}
+		}
+		// pure interface method applied in a contract: Method(recv, args...)
+		if len(x.Args) >= 1 {
+			if rv, ok := v.ifaceUF(x); ok {
+				return rv
+			}
 		}
 		if pd, ok := e.db.preds[x.Fn]; ok {
 			inner := *v
@@ -223,6 +251,45 @@ func (v *Env) eval(x Expr) *Val {
 				inner.boundStr[k] = true
 			}
 			inner.boundStr[x.Var] = true
+		}
+		if x.Sort == "Int" {
+			// Slices are addressed as elem(base, off+i). Arithmetic under a trigger defeats E-matching, so when the
+			// bound variable indexes slices with one common offset, quantify over the absolute index k = off+i instead.
+			probe := inner
+			probe.qOff = map[string]map[string]bool{bv: {}}
+			probe.qShift = map[string]string{}
+			var dummy []string
+			probe.qPats = &dummy
+			for k, m := range v.qOff {
+				probe.qOff[k] = m
+			}
+
+			body := probe.formula(x.Body)
+			if offs := probe.qOff[bv]; len(offs) == 1 {
+				var off string
+				for o := range offs {
+					off = o
+				}
+				if off != "0" {
+					shifted := inner
+					shifted.bound = map[string]string{}
+					for k, t := range inner.bound {
+						shifted.bound[k] = t
+					}
+					shifted.bound[x.Var] = app("-", bv, off)
+					shifted.qOff = map[string]map[string]bool{}
+					shifted.qShift = map[string]string{bv: off}
+					var pats []string
+					shifted.qPats = &pats
+					body2 := shifted.formula(x.Body)
+					pat := ""
+					if len(pats) > 0 {
+						pat = " :pattern (" + strings.Join(dedupe(pats), " ") + ")"
+						return &Val{typ: tBool, c: []string{fmt.Sprintf("(forall ((%s Int)) (! %s%s))", bv, body2, pat)}}
+					}
+				}
+			}
+			return &Val{typ: tBool, c: []string{fmt.Sprintf("(forall ((%s %s)) %s)", bv, x.Sort, body)}}
 		}
 		body := inner.formula(x.Body)
 		return &Val{typ: tBool, c: []string{fmt.Sprintf("(forall ((%s %s)) %s)", bv, x.Sort, body)}}
@@ -340,4 +407,39 @@ func derefNamed(t types.Type) (*types.Named, bool) {
 	}
 	n, ok := t.(*types.Named)
 	return n, ok
+}
+
+func (v *Env) ifaceUF(x *ECall) (*Val, bool) {
+	found := false
+	for k := range v.e.db.pureIface {
+		if strings.HasSuffix(k, "."+x.Fn) {
+			found = true
+		}
+	}
+	if !found {
+		return nil, false
+	}
+	recv := v.eval(x.Args[0])
+	if recv.typ == nil {
+		return nil, false
+	}
+	obj, _, _ := types.LookupFieldOrMethod(recv.typ, true, nil, x.Fn)
+	m, ok := obj.(*types.Func)
+	if !ok {
+		return nil, false
+	}
+	key := ifaceMethodKey(m)
+	if !v.e.db.pureIface[key] {
+		return nil, false
+	}
+	args := []*Val{recv}
+	for _, a := range x.Args[1:] {
+		args = append(args, v.eval(a))
+	}
+	res := m.Type().(*types.Signature).Results()
+	var rt types.Type = res
+	if res.Len() == 1 {
+		rt = res.At(0).Type()
+	}
+	return v.e.ufTerm("iface."+key, args, rt), true
 }
